@@ -14,8 +14,14 @@ cp $V/harness/export/zz_verif_exec.go $V/.build/sipsp/
 cp $REPO/go.sum $V/harness/go.sum 2>/dev/null || true
 (cd $V/harness && go build -tags verif -o $V/.build/harness ./cmd/harness)
 # --- regenerated facts
-if [ ! -x $V/.build/extract ]; then (cd $V/extract && go build -o $V/.build/extract .); fi
-$V/.build/extract $REPO $V/.build/Facts.lean.new $V/.build/facts.json
+if [ ! -x $V/.build/extract ] || [ $V/extract/main.go -nt $V/.build/extract ] || [ $V/extract/funcs.go -nt $V/.build/extract ]; then
+  (cd $V/extract && go build -o $V/.build/extract .)
+fi
+# Facts.lean: constants / tables / inventory; Funcs.lean: leaf functions TRANSLATED from the source (extract/funcs.go)
+$V/.build/extract $REPO $V/.build/Facts.lean.new $V/.build/facts.json $V/.build/Funcs.lean.new
 if ! cmp -s $V/.build/Facts.lean.new $V/lean/Sipsp/Generated/Facts.lean; then
   cp $V/.build/Facts.lean.new $V/lean/Sipsp/Generated/Facts.lean
+fi
+if ! cmp -s $V/.build/Funcs.lean.new $V/lean/Sipsp/Generated/Funcs.lean; then
+  cp $V/.build/Funcs.lean.new $V/lean/Sipsp/Generated/Funcs.lean
 fi
